@@ -267,29 +267,60 @@ def real_events(module, relabel):
 
 
 def norm_events(out):
-    """ParserB `out` -> the conventions of the tree classes: lambdef_nocond is merged into lambdef; the
-    typedargslist / varargslist node of a def / lambda is dissolved into its parent (Param grouping)."""
-    res = []
-    open_lists = []     # indices in res of closed (typed|var)argslist events not yet consumed by a parent
-    dissolved = set()
+    """ParserB `out` -> the conventions of the tree classes: lambdef_nocond is merged into lambdef; when a
+    funcdef / lambdef node is built its typedargslist / varargslist is dissolved into param nodes (flattened
+    here) - but not inside an error node, where no Function/Lambda object is ever constructed."""
+    stack = []      # closed, not yet consumed nodes: dict(name, kids) ; kids: symbol lists or node dicts
     for name, kids in out:
         name = 'lambdef' if name == 'lambdef_nocond' else name
-        ks = []
-        for k in kids:
-            k = list(k)
+        ks = [list(k) for k in kids]
+        for k in ks:
             if k == ['N', 'lambdef_nocond']:
-                k = ['N', 'lambdef']
-            if k in (['N', 'typedargslist'], ['N', 'varargslist']) and open_lists:
-                j = open_lists.pop()
-                if name in ('parameters', 'lambdef'):
-                    dissolved.add(j)
-                    ks.extend(res[j][1])
-                    continue
-            ks.append(k)
-        if name in ('typedargslist', 'varargslist'):
-            open_lists.append(len(res))
-        res.append([name, ks])
-    return [e for i, e in enumerate(res) if i not in dissolved]
+                k[1] = 'lambdef'
+        n_int = sum(1 for k in ks if k[0] == 'N')
+        sub = stack[len(stack) - n_int:] if n_int else []
+        del stack[len(stack) - n_int:]
+        it = iter(sub)
+        node = {'name': name, 'kids': [next(it) if k[0] == 'N' else k for k in ks]}
+        stack.append(node)
+
+    def regroup(node):
+        if node['name'] == 'funcdef':
+            for k in node['kids']:
+                if isinstance(k, dict) and k['name'] == 'parameters':
+                    k['kids'] = splice(k['kids'], 'typedargslist')
+        elif node['name'] == 'lambdef':
+            node['kids'] = splice(node['kids'], 'varargslist')
+        for k in node['kids']:
+            if isinstance(k, dict):
+                regroup(k)
+
+    def splice(kids, what):
+        res = []
+        for k in kids:
+            if isinstance(k, dict) and k['name'] == what:
+                res.extend(k['kids'])
+            else:
+                res.append(k)
+        return res
+
+    events = []
+
+    def emit(node):
+        todo = [(node, False)]
+        while todo:
+            n, done = todo.pop()
+            if done:
+                events.append([n['name'], [['N', k['name']] if isinstance(k, dict) else k for k in n['kids']]])
+            else:
+                todo.append((n, True))
+                for k in reversed(n['kids']):
+                    if isinstance(k, dict):
+                        todo.append((k, False))
+    for root in stack:
+        regroup(root)
+        emit(root)
+    return events
 
 
 def behaviours(run_dir, version, env, mode='recover', num=300, depth=24, closeat=12, seed=0, errlevels=(),
